@@ -38,7 +38,7 @@ ASSUMPTIONS = [
     "gates named like a built-in but defined by the user (discouraged by the library's documentation) are outside "
     "the workload",
 ]
-DECIDING = ["circuit", "circuit.empty-rules", "operations", "operation", "operation.chain-exact",
+DECIDING = ["circuit", "circuit.empty-rules", "operations", "operation", "chain-exact",
             "predicate", "production"]
 BUDGET = {"quick": (4, 25, 140), "thorough": (16, 150, 1500)}
 CASE_TIMEOUT = {"quick": 20, "thorough": 40}
@@ -424,6 +424,8 @@ def _post_circuit(mon, call):
             return
         mon.ok("circuit.empty-rules")
     mon.ok(name)
+    if exact:
+        mon.ok("chain-exact")
 
 
 class OneShot:
@@ -461,6 +463,10 @@ def _post_operations(mon, call):
     ok, exact = _judge(mon, what, ops, call.result, rules)
     if ok:
         mon.ok(name)
+        if exact:
+            # a chain of >= 2 modelled rules that fired, judged exactly - at whichever entry point the library
+            # routes it through (how the entry points call each other is not part of the property)
+            mon.ok("chain-exact")
 
 
 def _post_operation(mon, call):
@@ -481,7 +487,7 @@ def _post_operation(mon, call):
     if ok:
         mon.ok(name)
         if exact:
-            mon.ok("operation.chain-exact")
+            mon.ok("chain-exact")
 
 
 def _post_predicate(mon, call):
